@@ -112,7 +112,7 @@ def conformance_case(arg):
                 exp = float(sum(float(c) * _prod(m, val) for m, c in p.items()))
                 got = r["ydot"][sl]
                 nvals += 1
-                if abs(got - exp) > 1e-9 * max(1.0, abs(exp)):
+                if not (abs(got - exp) <= 1e-9 * max(1.0, abs(exp))):
                     raise HarnessError(f"E4 disagrees with the compiled Fex on {label} [{backend}] slot {sl}: {got} vs {exp}")
             for (rr, cc), p in ot.jac.items():
                 if rr == "?":
@@ -120,7 +120,7 @@ def conformance_case(arg):
                 exp = float(sum(float(c) * _prod(m, val) for m, c in p.items()))
                 got = r["jac"].get((rr, cc), 0.0)
                 nvals += 1
-                if abs(got - exp) > 1e-9 * max(1.0, abs(exp)):
+                if not (abs(got - exp) <= 1e-9 * max(1.0, abs(exp))):
                     raise HarnessError(f"E4 disagrees with the compiled Jac on {label} [{backend}] entry {(rr, cc)}: {got} vs {exp}")
             if r["csr"] is not None:
                 rp, cv, dv = r["csr"]
